@@ -11,6 +11,7 @@ import (
 	"sort"
 	"strconv"
 
+	"github.com/hashicorp/consul/acl"
 	"github.com/hashicorp/consul/agent/consul"
 	"github.com/hashicorp/consul/agent/structs"
 	"github.com/hashicorp/consul/agent/structs/aclfilter"
@@ -35,10 +36,13 @@ func buildCSNs(xs []csnT) structs.CheckServiceNodes {
 		var n *structs.Node
 		var s *structs.NodeService
 		if c.node != nil {
-			n = &structs.Node{Node: *c.node}
+			n = &structs.Node{Node: baseOf(*c.node), PeerName: peerOf(*c.node)}
 		}
 		if c.svc != nil {
-			s = &structs.NodeService{ID: "sid", Service: *c.svc}
+			s = &structs.NodeService{ID: "sid", Service: baseOf(*c.svc), PeerName: peerOf(*c.svc)}
+		}
+		if c.node != nil && c.svc != nil {
+			peerCheck(*c.node, *c.svc)
 		}
 		out = append(out, structs.CheckServiceNode{Node: n, Service: s,
 			Checks: structs.HealthChecks{{CheckID: ctypes.CheckID(idS(c.id))}}})
@@ -50,10 +54,10 @@ func readCSNs(xs structs.CheckServiceNodes) []csnT {
 	for _, c := range xs {
 		t := csnT{id: atoi(string(c.Checks[0].CheckID))}
 		if c.Node != nil {
-			t.node = sp(c.Node.Node)
+			t.node = sp(joinPeer(c.Node.Node, c.Node.PeerName))
 		}
 		if c.Service != nil {
-			t.svc = sp(c.Service.Service)
+			t.svc = sp(joinPeer(c.Service.Service, c.Service.PeerName))
 		}
 		out = append(out, t)
 	}
@@ -76,12 +80,15 @@ func readGws(xs structs.GatewayServices) []gwT {
 func buildDump(xs []nodeInfoT) structs.NodeDump {
 	out := make(structs.NodeDump, 0, len(xs))
 	for _, x := range xs {
-		ni := &structs.NodeInfo{Node: x.node, Address: idS(x.id)}
+		peer := peerOf(x.node)
+		ni := &structs.NodeInfo{Node: baseOf(x.node), PeerName: peer, Address: idS(x.id)}
 		for _, s := range x.svcs {
-			ni.Services = append(ni.Services, &structs.NodeService{Service: s.name, ID: idS(s.id)})
+			peerCheck(x.node, s.name)
+			ni.Services = append(ni.Services, &structs.NodeService{Service: baseOf(s.name), PeerName: peer, ID: idS(s.id)})
 		}
 		for _, c := range x.chks {
-			ni.Checks = append(ni.Checks, &structs.HealthCheck{Node: x.node, ServiceName: c.name, CheckID: ctypes.CheckID(idS(c.id))})
+			peerCheck(x.node, c.name)
+			ni.Checks = append(ni.Checks, &structs.HealthCheck{Node: baseOf(x.node), PeerName: peer, ServiceName: baseOf(c.name), CheckID: ctypes.CheckID(idS(c.id))})
 		}
 		out = append(out, ni)
 	}
@@ -90,12 +97,12 @@ func buildDump(xs []nodeInfoT) structs.NodeDump {
 func readDump(xs structs.NodeDump) []nodeInfoT {
 	var out []nodeInfoT
 	for _, ni := range xs {
-		x := nodeInfoT{node: ni.Node, id: atoi(ni.Address)}
+		x := nodeInfoT{node: joinPeer(ni.Node, ni.PeerName), id: atoi(ni.Address)}
 		for _, s := range ni.Services {
-			x.svcs = append(x.svcs, subT{s.Service, atoi(s.ID)})
+			x.svcs = append(x.svcs, subT{joinPeer(s.Service, s.PeerName), atoi(s.ID)})
 		}
 		for _, c := range ni.Checks {
-			x.chks = append(x.chks, subT{c.ServiceName, atoi(string(c.CheckID))})
+			x.chks = append(x.chks, subT{joinPeer(c.ServiceName, c.PeerName), atoi(string(c.CheckID))})
 		}
 		out = append(out, x)
 	}
@@ -118,33 +125,40 @@ func readNames(xs structs.ServiceList) []string {
 
 // exec builds the real response, runs the real filter and reads the result back.
 func exec(ty string, p *payload, az *authz) (out *payload, panicked bool) {
+	f := aclfilter.New(az.a, nil)
+	return execWith(ty, p, f.Filter, az.a)
+}
+
+// execWith builds the real response object, hands it to apply (the filter proper, or filterACL) and
+// reads the result back. direct: the authorizer for the two slice filters of agent/consul/filter.go
+// (they are not reached through Filter.Filter).
+func execWith(ty string, p *payload, apply func(any), direct acl.Authorizer) (out *payload, panicked bool) {
 	defer func() {
 		if e := recover(); e != nil {
 			out, panicked = nil, true
 		}
 	}()
-	f := aclfilter.New(az.a, nil)
 	o := &payload{}
 	qm := structs.QueryMeta{ResultsFilteredByACLs: p.flag}
 	switch ty {
 	case "CheckServiceNodes":
 		v := buildCSNs(p.csn[0])
-		f.Filter(&v)
+		apply(&v)
 		o.csn[0] = readCSNs(v)
 	case "IndexedCheckServiceNodes":
 		v := &structs.IndexedCheckServiceNodes{Nodes: buildCSNs(p.csn[0]), QueryMeta: qm}
-		f.Filter(v)
+		apply(v)
 		o.csn[0], o.flag = readCSNs(v.Nodes), v.ResultsFilteredByACLs
 	case "PreparedQueryExecuteResponse":
 		v := &structs.PreparedQueryExecuteResponse{Nodes: buildCSNs(p.csn[0]), QueryMeta: qm}
-		f.Filter(v)
+		apply(v)
 		o.csn[0], o.flag = readCSNs(v.Nodes), v.ResultsFilteredByACLs
 	case "IndexedServiceTopology":
 		v := &structs.IndexedServiceTopology{FilteredByACLs: p.fb, QueryMeta: qm}
 		if !p.topoNil {
 			v.ServiceTopology = &structs.ServiceTopology{Upstreams: buildCSNs(p.csn[0]), Downstreams: buildCSNs(p.csn[1])}
 		}
-		f.Filter(v)
+		apply(v)
 		o.csn[0], o.csn[1] = readCSNs(v.ServiceTopology.Upstreams), readCSNs(v.ServiceTopology.Downstreams)
 		o.fb, o.flag = v.FilteredByACLs, v.ResultsFilteredByACLs
 	case "DatacenterIndexedCheckServiceNodes":
@@ -152,7 +166,7 @@ func exec(ty string, p *payload, az *authz) (out *payload, panicked bool) {
 		for _, e := range p.dc {
 			v.DatacenterNodes[e.key] = buildCSNs(e.xs)
 		}
-		f.Filter(v)
+		apply(v)
 		for k, xs := range v.DatacenterNodes {
 			o.dc = append(o.dc, keyedCSN{k, readCSNs(xs)})
 		}
@@ -163,7 +177,7 @@ func exec(ty string, p *payload, az *authz) (out *payload, panicked bool) {
 		for _, c := range p.nodes {
 			v.Coordinates = append(v.Coordinates, &structs.Coordinate{Node: c.node, Segment: idS(c.id)})
 		}
-		f.Filter(v)
+		apply(v)
 		for _, c := range v.Coordinates {
 			o.nodes = append(o.nodes, nodeEnt{c.Node, atoi(c.Segment)})
 		}
@@ -171,11 +185,11 @@ func exec(ty string, p *payload, az *authz) (out *payload, panicked bool) {
 	case "IndexedNodes":
 		v := &structs.IndexedNodes{QueryMeta: qm}
 		for _, c := range p.nodes {
-			v.Nodes = append(v.Nodes, &structs.Node{Node: c.node, Address: idS(c.id)})
+			v.Nodes = append(v.Nodes, &structs.Node{Node: baseOf(c.node), PeerName: peerOf(c.node), Address: idS(c.id)})
 		}
-		f.Filter(v)
+		apply(v)
 		for _, c := range v.Nodes {
-			o.nodes = append(o.nodes, nodeEnt{c.Node, atoi(c.Address)})
+			o.nodes = append(o.nodes, nodeEnt{joinPeer(c.Node, c.PeerName), atoi(c.Address)})
 		}
 		o.flag = v.ResultsFilteredByACLs
 	case "IndexedSessions":
@@ -183,7 +197,7 @@ func exec(ty string, p *payload, az *authz) (out *payload, panicked bool) {
 		for _, c := range p.nodes {
 			v.Sessions = append(v.Sessions, &structs.Session{Node: c.node, ID: idS(c.id)})
 		}
-		f.Filter(v)
+		apply(v)
 		for _, c := range v.Sessions {
 			o.nodes = append(o.nodes, nodeEnt{c.Node, atoi(c.ID)})
 		}
@@ -191,21 +205,21 @@ func exec(ty string, p *payload, az *authz) (out *payload, panicked bool) {
 	case "IndexedHealthChecks":
 		v := &structs.IndexedHealthChecks{QueryMeta: qm}
 		for _, c := range p.svcs {
-			v.HealthChecks = append(v.HealthChecks, &structs.HealthCheck{Node: c.node, ServiceName: c.svc, CheckID: ctypes.CheckID(idS(c.id))})
+			v.HealthChecks = append(v.HealthChecks, &structs.HealthCheck{Node: baseOf(c.node), PeerName: peerCheck(c.node, c.svc), ServiceName: baseOf(c.svc), CheckID: ctypes.CheckID(idS(c.id))})
 		}
-		f.Filter(v)
+		apply(v)
 		for _, c := range v.HealthChecks {
-			o.svcs = append(o.svcs, svcEnt{c.Node, c.ServiceName, atoi(string(c.CheckID))})
+			o.svcs = append(o.svcs, svcEnt{joinPeer(c.Node, c.PeerName), joinPeer(c.ServiceName, c.PeerName), atoi(string(c.CheckID))})
 		}
 		o.flag = v.ResultsFilteredByACLs
 	case "IndexedServiceNodes":
 		v := &structs.IndexedServiceNodes{QueryMeta: qm}
 		for _, c := range p.svcs {
-			v.ServiceNodes = append(v.ServiceNodes, &structs.ServiceNode{Node: c.node, ServiceName: c.svc, ServiceID: idS(c.id)})
+			v.ServiceNodes = append(v.ServiceNodes, &structs.ServiceNode{Node: baseOf(c.node), PeerName: peerCheck(c.node, c.svc), ServiceName: baseOf(c.svc), ServiceID: idS(c.id)})
 		}
-		f.Filter(v)
+		apply(v)
 		for _, c := range v.ServiceNodes {
-			o.svcs = append(o.svcs, svcEnt{c.Node, c.ServiceName, atoi(c.ServiceID)})
+			o.svcs = append(o.svcs, svcEnt{joinPeer(c.Node, c.PeerName), joinPeer(c.ServiceName, c.PeerName), atoi(c.ServiceID)})
 		}
 		o.flag = v.ResultsFilteredByACLs
 	case "IndexedIntentions":
@@ -217,7 +231,7 @@ func exec(ty string, p *payload, az *authz) (out *payload, panicked bool) {
 			}
 			v.Intentions = append(v.Intentions, ix)
 		}
-		f.Filter(v)
+		apply(v)
 		for _, ix := range v.Intentions {
 			o.ixns = append(o.ixns, ixnT{ix.SourceName, ix.SourcePeer != "", ix.DestinationName, atoi(ix.ID)})
 		}
@@ -227,13 +241,13 @@ func exec(ty string, p *payload, az *authz) (out *payload, panicked bool) {
 		for _, n := range p.names {
 			v.Entries = append(v.Entries, structs.IntentionMatchEntry{Namespace: "default", Name: n})
 		}
-		f.Filter(v)
+		apply(v)
 		for _, e := range v.Entries {
 			o.names = append(o.names, e.Name)
 		}
 	case "IndexedNodeDump":
 		v := &structs.IndexedNodeDump{Dump: buildDump(p.dump[0]), ImportedDump: buildDump(p.dump[1]), QueryMeta: qm}
-		f.Filter(v)
+		apply(v)
 		o.dump[0], o.dump[1], o.flag = readDump(v.Dump), readDump(v.ImportedDump), v.ResultsFilteredByACLs
 	case "IndexedServiceDump":
 		v := &structs.IndexedServiceDump{QueryMeta: qm}
@@ -243,19 +257,19 @@ func exec(ty string, p *payload, az *authz) (out *payload, panicked bool) {
 				si.GatewayService = &structs.GatewayService{Gateway: structs.NewServiceName(s.gs[0], nil), Service: structs.NewServiceName(s.gs[1], nil)}
 			}
 			if s.node != nil {
-				si.Node = &structs.Node{Node: *s.node}
-				si.Service = &structs.NodeService{ID: "sid", Service: "x"}
+				si.Node = &structs.Node{Node: baseOf(*s.node), PeerName: peerOf(*s.node)}
+				si.Service = &structs.NodeService{ID: "sid", Service: "x", PeerName: peerOf(*s.node)}
 			}
 			v.Dump = append(v.Dump, si)
 		}
-		f.Filter(v)
+		apply(v)
 		for _, si := range v.Dump {
 			s := svcInfoT{id: atoi(string(si.Checks[0].CheckID))}
 			if si.GatewayService != nil {
 				s.gs = &[2]string{si.GatewayService.Gateway.Name, si.GatewayService.Service.Name}
 			}
 			if si.Node != nil {
-				s.node = sp(si.Node.Node)
+				s.node = sp(joinPeer(si.Node.Node, si.Node.PeerName))
 			}
 			o.infos = append(o.infos, s)
 		}
@@ -263,18 +277,18 @@ func exec(ty string, p *payload, az *authz) (out *payload, panicked bool) {
 	case "IndexedNodeServices":
 		v := &structs.IndexedNodeServices{QueryMeta: qm}
 		if !p.nsNil {
-			v.NodeServices = &structs.NodeServices{Node: &structs.Node{Node: *p.nsNode}, Services: map[string]*structs.NodeService{}}
+			v.NodeServices = &structs.NodeServices{Node: &structs.Node{Node: baseOf(*p.nsNode), PeerName: peerOf(*p.nsNode)}, Services: map[string]*structs.NodeService{}}
 			for _, e := range p.ns {
-				v.NodeServices.Services[e.key] = &structs.NodeService{ID: e.key, Service: e.name, Port: e.id}
+				v.NodeServices.Services[e.key] = &structs.NodeService{ID: e.key, Service: baseOf(e.name), PeerName: peerCheck(*p.nsNode, e.name), Port: e.id}
 			}
 		}
-		f.Filter(v)
+		apply(v)
 		if v.NodeServices == nil {
 			o.nsNil = true
 		} else {
-			o.nsNode = sp(v.NodeServices.Node.Node)
+			o.nsNode = sp(joinPeer(v.NodeServices.Node.Node, v.NodeServices.Node.PeerName))
 			for k, s := range v.NodeServices.Services {
-				o.ns = append(o.ns, nsEnt{k, s.Service, s.Port})
+				o.ns = append(o.ns, nsEnt{k, joinPeer(s.Service, s.PeerName), s.Port})
 			}
 			sort.Slice(o.ns, func(i, j int) bool { return o.ns[i].key < o.ns[j].key })
 		}
@@ -282,17 +296,17 @@ func exec(ty string, p *payload, az *authz) (out *payload, panicked bool) {
 	case "IndexedNodeServiceList":
 		v := &structs.IndexedNodeServiceList{QueryMeta: qm}
 		if p.nsNode != nil {
-			v.NodeServices.Node = &structs.Node{Node: *p.nsNode}
+			v.NodeServices.Node = &structs.Node{Node: baseOf(*p.nsNode), PeerName: peerOf(*p.nsNode)}
 		}
 		for _, s := range p.subs {
-			v.NodeServices.Services = append(v.NodeServices.Services, &structs.NodeService{Service: s.name, ID: idS(s.id)})
+			v.NodeServices.Services = append(v.NodeServices.Services, &structs.NodeService{Service: baseOf(s.name), PeerName: peerOf(s.name), ID: idS(s.id)})
 		}
-		f.Filter(v)
+		apply(v)
 		if v.NodeServices.Node != nil {
-			o.nsNode = sp(v.NodeServices.Node.Node)
+			o.nsNode = sp(joinPeer(v.NodeServices.Node.Node, v.NodeServices.Node.PeerName))
 		}
 		for _, s := range v.NodeServices.Services {
-			o.subs = append(o.subs, subT{s.Service, atoi(s.ID)})
+			o.subs = append(o.subs, subT{joinPeer(s.Service, s.PeerName), atoi(s.ID)})
 		}
 		o.flag = v.ResultsFilteredByACLs
 	case "IndexedServices":
@@ -300,7 +314,7 @@ func exec(ty string, p *payload, az *authz) (out *payload, panicked bool) {
 		for _, s := range p.subs {
 			v.Services[s.name] = []string{idS(s.id)}
 		}
-		f.Filter(v)
+		apply(v)
 		for k, tags := range v.Services {
 			o.subs = append(o.subs, subT{k, atoi(tags[0])})
 		}
@@ -324,10 +338,10 @@ func exec(ty string, p *payload, az *authz) (out *payload, panicked bool) {
 			tokensBefore = append(tokensBefore, q.Token)
 		}
 		if ty == "PtrPreparedQuery" {
-			f.Filter(&qs[0])
+			apply(&qs[0])
 		} else {
 			v := &structs.IndexedPreparedQueries{Queries: qs, QueryMeta: qm}
-			f.Filter(v)
+			apply(v)
 			qs, o.flag = v.Queries, v.ResultsFilteredByACLs
 		}
 		for i, q := range orig { // redaction must work on a clone: the caller's object may be the state store's
@@ -350,14 +364,14 @@ func exec(ty string, p *payload, az *authz) (out *payload, panicked bool) {
 		}
 	case "IndexedServiceList":
 		v := &structs.IndexedServiceList{Services: buildNames(p.names), QueryMeta: qm}
-		f.Filter(v)
+		apply(v)
 		o.names, o.flag = readNames(v.Services), v.ResultsFilteredByACLs
 	case "IndexedExportedServiceList":
 		v := &structs.IndexedExportedServiceList{Services: map[string]structs.ServiceList{}, QueryMeta: qm}
 		for _, e := range p.exported {
 			v.Services[e.key] = buildNames(e.xs)
 		}
-		f.Filter(v)
+		apply(v)
 		for k, xs := range v.Services {
 			o.exported = append(o.exported, keyedNames{k, readNames(xs)})
 		}
@@ -365,18 +379,18 @@ func exec(ty string, p *payload, az *authz) (out *payload, panicked bool) {
 		o.flag = v.ResultsFilteredByACLs
 	case "IndexedGatewayServices":
 		v := &structs.IndexedGatewayServices{Services: buildGws(p.gws), QueryMeta: qm}
-		f.Filter(v)
+		apply(v)
 		o.gws, o.flag = readGws(v.Services), v.ResultsFilteredByACLs
 	case "IndexedNodesWithGateways":
 		v := &structs.IndexedNodesWithGateways{Nodes: buildCSNs(p.csn[0]), Gateways: buildGws(p.gws), ImportedNodes: buildCSNs(p.csn[1]), QueryMeta: qm}
-		f.Filter(v)
+		apply(v)
 		o.csn[0], o.gws, o.csn[1], o.flag = readCSNs(v.Nodes), readGws(v.Gateways), readCSNs(v.ImportedNodes), v.ResultsFilteredByACLs
 	case "DirEntries":
 		var v structs.DirEntries
 		for _, s := range p.subs {
 			v = append(v, &structs.DirEntry{Key: s.name, Flags: uint64(s.id)})
 		}
-		v = consul.FilterDirEnt(az.a, v)
+		v = consul.FilterDirEnt(direct, v)
 		for _, e := range v {
 			o.subs = append(o.subs, subT{e.Key, int(e.Flags)})
 		}
@@ -388,11 +402,11 @@ func exec(ty string, p *payload, az *authz) (out *payload, panicked bool) {
 			case 'k':
 				r.KV = &structs.DirEntry{Key: t.a, Flags: uint64(t.id)}
 			case 'n':
-				r.Node = &structs.Node{Node: t.a, Address: idS(t.id)}
+				r.Node = &structs.Node{Node: baseOf(t.a), PeerName: peerOf(t.a), Address: idS(t.id)}
 			case 's':
-				r.Service = &structs.NodeService{Service: t.a, ID: idS(t.id)}
+				r.Service = &structs.NodeService{Service: baseOf(t.a), PeerName: peerOf(t.a), ID: idS(t.id)}
 			case 'c':
-				r.Check = &structs.HealthCheck{Node: t.a, ServiceName: t.b, CheckID: ctypes.CheckID(idS(t.id))}
+				r.Check = &structs.HealthCheck{Node: baseOf(t.a), PeerName: peerCheck(t.a, t.b), ServiceName: baseOf(t.b), CheckID: ctypes.CheckID(idS(t.id))}
 			case 'e':
 				// an empty result carries nothing; give it an identity the filter never looks at
 			}
@@ -404,24 +418,24 @@ func exec(ty string, p *payload, az *authz) (out *payload, panicked bool) {
 				emptyID[v[i]] = t.id
 			}
 		}
-		v = consul.FilterTxnResults(az.a, v)
+		v = consul.FilterTxnResults(direct, v)
 		for _, r := range v {
 			switch {
 			case r.KV != nil:
 				o.txns = append(o.txns, txnT{'k', r.KV.Key, "", int(r.KV.Flags)})
 			case r.Node != nil:
-				o.txns = append(o.txns, txnT{'n', r.Node.Node, "", atoi(r.Node.Address)})
+				o.txns = append(o.txns, txnT{'n', joinPeer(r.Node.Node, r.Node.PeerName), "", atoi(r.Node.Address)})
 			case r.Service != nil:
-				o.txns = append(o.txns, txnT{'s', r.Service.Service, "", atoi(r.Service.ID)})
+				o.txns = append(o.txns, txnT{'s', joinPeer(r.Service.Service, r.Service.PeerName), "", atoi(r.Service.ID)})
 			case r.Check != nil:
-				o.txns = append(o.txns, txnT{'c', r.Check.Node, r.Check.ServiceName, atoi(string(r.Check.CheckID))})
+				o.txns = append(o.txns, txnT{'c', joinPeer(r.Check.Node, r.Check.PeerName), joinPeer(r.Check.ServiceName, r.Check.PeerName), atoi(string(r.Check.CheckID))})
 			default:
 				o.txns = append(o.txns, txnT{'e', "", "", emptyID[r]})
 			}
 		}
 	default:
 		k := aclKinds[ty]
-		o.acls = execACL(f, k, p.acls)
+		o.acls = execACL(apply, k, p.acls)
 	}
 	return o, false
 }
@@ -436,7 +450,7 @@ func secretOf(s string) int {
 	return 99
 }
 
-func execACL(f *aclfilter.Filter, k aclKind, in []*aclT) []*aclT {
+func execACL(apply func(any), k aclKind, in []*aclT) []*aclT {
 	var out []*aclT
 	switch k.kind {
 	case "token":
@@ -450,9 +464,9 @@ func execACL(f *aclfilter.Filter, k aclKind, in []*aclT) []*aclT {
 		}
 		orig := append(structs.ACLTokens(nil), v...)
 		if k.list {
-			f.Filter(&v)
+			apply(&v)
 		} else {
-			f.Filter(&v[0])
+			apply(&v[0])
 		}
 		for _, t := range orig {
 			if t != nil && t.SecretID != "s3cr3t" {
@@ -476,9 +490,9 @@ func execACL(f *aclfilter.Filter, k aclKind, in []*aclT) []*aclT {
 			}
 		}
 		if k.list {
-			f.Filter(&v)
+			apply(&v)
 		} else {
-			f.Filter(&v[0])
+			apply(&v[0])
 		}
 		for _, t := range v {
 			if t == nil {
@@ -497,9 +511,9 @@ func execACL(f *aclfilter.Filter, k aclKind, in []*aclT) []*aclT {
 			}
 		}
 		if k.list {
-			f.Filter(&v)
+			apply(&v)
 		} else {
-			f.Filter(&v[0])
+			apply(&v[0])
 		}
 		for _, t := range v {
 			if t == nil {
@@ -518,9 +532,9 @@ func execACL(f *aclfilter.Filter, k aclKind, in []*aclT) []*aclT {
 			}
 		}
 		if k.list {
-			f.Filter(&v)
+			apply(&v)
 		} else {
-			f.Filter(&v[0])
+			apply(&v[0])
 		}
 		for _, t := range v {
 			if t == nil {
@@ -539,9 +553,9 @@ func execACL(f *aclfilter.Filter, k aclKind, in []*aclT) []*aclT {
 			}
 		}
 		if k.list {
-			f.Filter(&v)
+			apply(&v)
 		} else {
-			f.Filter(&v[0])
+			apply(&v[0])
 		}
 		for _, t := range v {
 			if t == nil {
@@ -560,9 +574,9 @@ func execACL(f *aclfilter.Filter, k aclKind, in []*aclT) []*aclT {
 			}
 		}
 		if k.list {
-			f.Filter(&v)
+			apply(&v)
 		} else {
-			f.Filter(&v[0])
+			apply(&v[0])
 		}
 		for _, t := range v {
 			if t == nil {
